@@ -256,7 +256,74 @@ fn op_class(op: &str) -> &'static str {
     }
 }
 
+/// values, not identities: an operator applied to the *same* heap cell on both sides (one binding used
+/// twice, directly or as elements of both operand lists) gives what it gives on two separate, equal copies
+fn alias_value(r: &mut Rng, depth: u32) -> RVal {
+    match r.below(if depth == 0 { 12 } else { 9 }) {
+        0 => RVal::num(*r.pick(&[0.0, -0.0, 1.0, 2.0, -3.0, 0.5, f64::INFINITY, f64::NAN])),
+        1 => RVal::num(f64::NAN),
+        2 => RVal::Null,
+        3 => RVal::Str(r.pick(&["", "a", "ab", "é"]).to_string()),
+        4 => RVal::Bool(r.chance(1, 2)),
+        5 => RVal::num(r.below(4) as f64),
+        6 => RVal::Rec(vec![("k".to_string(), RVal::num(r.below(3) as f64))]),
+        7 => RVal::List(vec![]),
+        8 => RVal::List(vec![RVal::num(1.0), RVal::num(r.below(3) as f64)]),
+        _ => RVal::List((0..1 + r.below(3)).map(|_| alias_value(r, depth + 1)).collect()),
+    }
+}
+
+/// identical results: numbers bit for bit, except that every NaN is the same NaN
+fn same_result(a: &RVal, b: &RVal) -> bool {
+    match (a, b) {
+        (RVal::Num(x), RVal::Num(y)) => x == y || (f64::from_bits(*x).is_nan() && f64::from_bits(*y).is_nan()),
+        (RVal::List(x), RVal::List(y)) => x.len() == y.len() && x.iter().zip(y).all(|(p, q)| same_result(p, q)),
+        (RVal::Rec(x), RVal::Rec(y)) => x.len() == y.len() && x.iter().zip(y).all(|((k, p), (l, q))| k == l && same_result(p, q)),
+        _ => a == b,
+    }
+}
+
+fn part_alias(ctx: &Ctx, sink: &mut Sink) {
+    let n = ctx.budget(40_000, 600_000);
+    let sess = Sess::new();
+    let all_ops: Vec<&str> = OPS.iter().copied().collect();
+    for i in 0..n {
+        if !ctx.mine(i) {
+            continue;
+        }
+        let mut r = Rng::derive(ctx.seed, "c11-alias", i);
+        let op = all_ops[(i as usize / ctx.shard_n as usize) % all_ops.len()];
+        let x = alias_value(&mut r, 0);
+        let other = alias_value(&mut r, 1);
+        sess.bind("X", mk_value(&sess.heap, &x));
+        sess.bind("Xa", mk_value(&sess.heap, &x));
+        sess.bind("Xb", mk_value(&sess.heap, &x));
+        sess.bind("Y", mk_value(&sess.heap, &other));
+        let forms: [(&str, &str); 4] = [("X {} X", "Xa {} Xb"), ("[X, Y] {} [X, Y]", "[Xa, Y] {} [Xb, Y]"), ("[Y, X] {} [Y, X]", "[Y, Xa] {} [Y, Xb]"), ("[[X]] {} [[X]]", "[[Xa]] {} [[Xb]]")];
+        let (fa, fb) = forms[r.below(4) as usize];
+        let aliased = fa.replace("{}", op);
+        let separate = fb.replace("{}", op);
+        let got_alias = sess.rout(&sess.eval(&aliased));
+        let got_sep = sess.rout(&sess.eval(&separate));
+        let key = format!("alias|{}|{}|{}|{}", op, fa, x.show(), other.show());
+        sink.case(&key, matches!(x, RVal::List(_) | RVal::Rec(_) | RVal::Str(_)));
+        let same = match (&got_alias, &got_sep) {
+            (ROut::Ok(a), ROut::Ok(b)) => same_result(a, b),
+            (ROut::Err(_), ROut::Err(_)) => true,
+            _ => false,
+        };
+        if !same {
+            sink.viol(
+                &format!("aliasing-changes-result op-class={}", if op.starts_with('.') { "dot-comparison" } else { op_class(op) }),
+                "an operator gives a different result when both operands are (or contain) the same heap cell than on two equal copies",
+                json!({"part": "alias", "op": op, "X": x.show(), "Y": other.show(), "aliased": aliased, "aliased_result": got_alias.show(), "separate": separate, "separate_result": got_sep.show()}),
+            );
+        }
+    }
+}
+
 pub fn run(ctx: &Ctx, sink: &mut Sink) {
     part_scalar(ctx, sink);
     part_broadcast(ctx, sink);
+    part_alias(ctx, sink);
 }
